@@ -97,7 +97,7 @@ func newSupervised() *Supervised {
 	if p := os.Getenv("VERIF_VIOL_LOG"); p != "" {
 		s.viol, _ = os.OpenFile(p, os.O_APPEND|os.O_CREATE|os.O_WRONLY, 0o644)
 	}
-	limit := time.Duration(drv.EnvInt("VERIF_CASE_LIMIT_S", 150)) * time.Second
+	limit := time.Duration(drv.EnvInt("VERIF_CASE_LIMIT_S", 60)) * time.Second
 	go func() {
 		for {
 			time.Sleep(time.Second)
@@ -124,7 +124,7 @@ func (s *Supervised) Begin(i int, what string) {
 		_ = os.WriteFile(s.progress, []byte(fmt.Sprintf("%d\t%s", i, what)), 0o644)
 	}
 	s.current.Store(what)
-	s.deadline.Store(time.Now().Add(time.Duration(drv.EnvInt("VERIF_CASE_LIMIT_S", 150)) * time.Second).UnixNano())
+	s.deadline.Store(time.Now().Add(time.Duration(drv.EnvInt("VERIF_CASE_LIMIT_S", 60)) * time.Second).UnixNano())
 }
 
 // mutexBlocked lists the go-perun call chains of goroutines that wait for a sync.Mutex / RWMutex (from a dump of all stacks).
